@@ -65,3 +65,4 @@ GROUPS += [
           flags=["--no-malloc-may-fail"], must_fail=["reach_end", "reach_negative_range_on_E_row", "reach_range_on_N_row"], functions=["transferRanges"],
           props=["C10", "C11", "C17"], assumed=["rawlp/ranges: static transferRanges called through goto-cc --export-file-local-symbols; ILLdata_error is a counter; at most one RANGES entry per row (enforced by mps.c add_ranges, not decided here)"]),
 ]
+
